@@ -195,17 +195,67 @@ fn mod_path_of_file(rel: &str) -> ItemPath {
     ItemPath::from_path(Path::new(rel))
 }
 
+/// A resolution schedule installed through the cfg(pyxis_verif) hook.  Each is a pure function of
+/// the (sorted) set of unresolved paths.
+#[derive(Clone, Debug, PartialEq, Eq, serde::Serialize, serde::Deserialize)]
+pub enum Sched {
+    Sorted,
+    Reverse,
+    /// paths listed earlier are tried earlier; unlisted ones last, in sorted order
+    Priority(Vec<String>),
+    /// a shuffle that depends on the seed and on the set itself (so it differs per round)
+    Seeded(u64),
+}
+
+thread_local! {
+    pub static SCHED_CALLS: std::cell::Cell<u64> = const { std::cell::Cell::new(0) };
+}
+
+fn install_schedule(s: &Sched) {
+    let s = s.clone();
+    SCHED_CALLS.with(|c| c.set(0));
+    pyxis::semantic::verif::set_schedule(Some(Box::new(move |paths: &mut Vec<ItemPath>| {
+        SCHED_CALLS.with(|c| c.set(c.get() + 1));
+        match &s {
+            Sched::Sorted => {}
+            Sched::Reverse => paths.reverse(),
+            Sched::Priority(p) => {
+                paths.sort_by_key(|x| {
+                    let xs = x.to_string();
+                    p.iter().position(|q| *q == xs).unwrap_or(usize::MAX)
+                });
+            }
+            Sched::Seeded(seed) => {
+                use std::hash::{Hash, Hasher};
+                let mut h = std::collections::hash_map::DefaultHasher::new();
+                seed.hash(&mut h);
+                for x in paths.iter() {
+                    x.to_string().hash(&mut h);
+                }
+                let mut mix = crate::tape::Mix(h.finish());
+                // Fisher-Yates
+                for i in (1..paths.len()).rev() {
+                    let j = mix.below(i as u64 + 1) as usize;
+                    paths.swap(i, j);
+                }
+            }
+        }
+    })));
+}
+
 pub struct MemOpts<'a> {
     /// order in which modules are added (indices into `files`); None = given order
     pub order: Option<&'a [usize]>,
     /// write the output files (needs a scratch dir); false = resolve only
     pub emit: bool,
+    pub sched: Option<&'a Sched>,
 }
 impl Default for MemOpts<'_> {
     fn default() -> Self {
         MemOpts {
             order: None,
             emit: true,
+            sched: None,
         }
     }
 }
@@ -213,6 +263,17 @@ impl Default for MemOpts<'_> {
 /// Same steps as `pyxis::build`, but from memory, with a chosen module order,
 /// and keeping the resolved registry for inspection.
 pub fn build_mem(files: &[(String, String)], width: usize, opts: &MemOpts) -> Res {
+    if let Some(s) = opts.sched {
+        install_schedule(s);
+    }
+    let r = build_mem_inner(files, width, opts);
+    if opts.sched.is_some() {
+        pyxis::semantic::verif::set_schedule(None);
+    }
+    r
+}
+
+fn build_mem_inner(files: &[(String, String)], width: usize, opts: &MemOpts) -> Res {
     let r = catch(|| -> Result<Built, String> {
         let mut st = SemanticState::new(width);
         let default_order: Vec<usize> = (0..files.len()).collect();
